@@ -45,10 +45,12 @@ void h_array_binary(void) {
     __CPROVER_assert(out[p + 1] == '0' + nd, "C17: digit giving the number of length digits");
     __CPROVER_assert(nd == 1 ? out[p + 2] == '0' + bytes : (out[p + 2] == '0' + bytes / 10 && out[p + 3] == '0' + bytes % 10), "C17: decimal byte count");
     __CPROVER_assert(outn == p + 2 + nd + bytes, "C17: exactly the announced number of bytes follows");
-    size_t j = nondet_size(), b = nondet_size(); __CPROVER_assume(j < count && b < size);
-    uint64_t e = which == 0 ? a8[j] : which == 1 ? a16[j] : which == 2 ? a32[j] : a64[j];
-    unsigned char expect = fmt == SCPI_FORMAT_NORMAL ? (unsigned char)(e >> (8 * (size - 1 - b))) : (unsigned char)(e >> (8 * b));
-    __CPROVER_assert(out[p + 2 + nd + j * size + b] == expect, "C17: elements big-endian for NORMAL, little-endian for SWAPPED, whatever the host byte order");
+    size_t j = nondet_size(), b = nondet_size();
+    if (j < count && b < size) {
+        uint64_t e = which == 0 ? a8[j] : which == 1 ? a16[j] : which == 2 ? a32[j] : a64[j];
+        unsigned char expect = fmt == SCPI_FORMAT_NORMAL ? (unsigned char)(e >> (8 * (size - 1 - b))) : (unsigned char)(e >> (8 * b));
+        __CPROVER_assert(out[p + 2 + nd + j * size + b] == expect, "C17: elements big-endian for NORMAL, little-endian for SWAPPED, whatever the host byte order");
+    }
     __CPROVER_assert(ctx.output_count == had + 1, "C17: the complete block is exactly one result item");
     __CPROVER_assert(ctx.arbitrary_remaining == 0 && SCPI_ErrorCount(&ctx) == 0, "C17: accounting closed, no error");
     REACH("array_binary");
